@@ -17,8 +17,9 @@ TraceNext ==
   /\ LET e == TraceLog[l]
          eff == Effective(e.arg, e.shape)
          direct == IF eff = "2.0" THEN e.d20 ELSE e.d21 IN
-     /\ IF e.form = "bundle_dict" /\ Norm(e.outcome) = Norm(IF eff = "2.0" THEN e.w20 ELSE e.w21)
-        THEN TRUE    \* members of a bundle are version-detected one by one, exactly as the direct parse of the bundle does
+     /\ IF e.form \in {"bundle_dict", "bundle_dict_other_style"} /\ Norm(e.outcome) = Norm(IF eff = "2.0" THEN e.w20 ELSE e.w21)
+        THEN TRUE    \* an entry point may take the bundle as a whole: then it answers as the direct parse of that same bundle with the effective version does
+                     \* (otherwise it takes the members one by one and the rules below apply to the member)
         ELSE IF Obj(e.outcome) /\ ~IdAccept(eff, e.idc) /\ e.shape.t # "custom" /\ IdApplies(eff, e.shape)
         THEN PrintT(<<"REJECT", l, e.entry, IF e.arg = "none" THEN "invalid_identifier_accepted" ELSE "naming_version_relaxes_identifier_validation">>)
         ELSE IF e.arg # "none" /\ Obj(e.outcome) /\ e.outcome # Family(e.arg)
